@@ -43,6 +43,7 @@ def main():
     t.daemon = True
     t.start()
     try:
+        ctx.run_corpus()
         rc = mod.run(ctx)
     except Exception:
         # a crash of the machinery is reported as a broken correspondence, never swallowed
